@@ -150,6 +150,100 @@ theorem flattenList_inj : ∀ (a b : List Node), okList a = true → okList b = 
   have := flatten_inj_list a b q q [] [] ha hb (by rw [h])
   exact this.1
 
+/-! ### the merged forest is in normal form: no two adjacent text leaves, at any level -/
+
+def isTextLeaf : Node → Bool
+  | .leaf e => isText e
+  | _ => false
+
+def headIsTextLeaf : List Node → Bool
+  | n :: _ => isTextLeaf n
+  | [] => false
+
+mutual
+  def noAdjLeavesNode : Node → Bool
+    | .elem _ _ ks => noAdjLeavesList ks
+    | .leaf _ => true
+  def noAdjLeavesList : List Node → Bool
+    | [] => true
+    | n :: ns => !(isTextLeaf n && headIsTextLeaf ns) && noAdjLeavesNode n && noAdjLeavesList ns
+end
+
+/-- the list is empty or its last node is not a text leaf -/
+def endsNonText : List Node → Bool
+  | [] => true
+  | [n] => !isTextLeaf n
+  | _ :: n :: rest => endsNonText (n :: rest)
+
+theorem noAdjLeavesList_append : ∀ (a b : List Node), noAdjLeavesList a = true → noAdjLeavesList b = true →
+    endsNonText a = true → noAdjLeavesList (a ++ b) = true
+  | [], b, _, hb, _ => by simpa using hb
+  | [n], b, ha, hb, he => by
+      simp only [endsNonText, Bool.not_eq_true'] at he
+      simp only [noAdjLeavesList, Bool.and_eq_true, Bool.not_eq_true'] at ha
+      simp only [List.cons_append, List.nil_append, noAdjLeavesList, he, Bool.false_and, Bool.not_false,
+        Bool.true_and, Bool.and_eq_true]
+      exact ⟨ha.1.2, hb⟩
+  | n :: n' :: rest, b, ha, hb, he => by
+      simp only [noAdjLeavesList, headIsTextLeaf, Bool.and_eq_true, Bool.not_eq_true'] at ha
+      have ih := noAdjLeavesList_append (n' :: rest) b
+        (by simp only [noAdjLeavesList, Bool.and_eq_true, Bool.not_eq_true', headIsTextLeaf]; exact ha.2) hb
+        (by simpa [endsNonText] using he)
+      simp only [List.cons_append, noAdjLeavesList, headIsTextLeaf, Bool.and_eq_true, Bool.not_eq_true'] at ih ⊢
+      exact ⟨⟨ha.1.1, ha.1.2⟩, ih⟩
+
+theorem endsNonText_append : ∀ (a b : List Node), endsNonText a = true → endsNonText b = true →
+    endsNonText (a ++ b) = true
+  | [], b, _, hb => by simpa using hb
+  | [n], [], ha, _ => by simpa using ha
+  | [n], m :: b, _, hb => by simpa [endsNonText] using hb
+  | n :: n' :: rest, b, ha, hb => by
+      have := endsNonText_append (n' :: rest) b (by simpa [endsNonText] using ha) hb
+      simpa [endsNonText] using this
+
+theorem noAdj_flushLeaf (buf : Option Str) : noAdjLeavesList (flushLeaf buf) = true := by
+  cases buf <;> simp [flushLeaf, noAdjLeavesList, headIsTextLeaf, noAdjLeavesNode]
+
+theorem flush_then_nontext (buf : Option Str) (n : Node) (hn : isTextLeaf n = false)
+    (hok : noAdjLeavesNode n = true) :
+    noAdjLeavesList (flushLeaf buf ++ [n]) = true ∧ endsNonText (flushLeaf buf ++ [n]) = true := by
+  cases buf <;>
+    simp [flushLeaf, noAdjLeavesList, headIsTextLeaf, noAdjLeavesNode, endsNonText, hn, hok]
+
+mutual
+  theorem mergeNodeK_normal : ∀ (n : Node) (buf : Option Str),
+      noAdjLeavesList (mergeNodeK buf n).1 = true ∧ endsNonText (mergeNodeK buf n).1 = true
+    | .leaf e, buf => by
+        by_cases ht : isText e = true
+        · obtain ⟨s, b, rfl⟩ := (isText_iff e).1 ht
+          simp [mergeNodeK, noAdjLeavesList, endsNonText]
+        · have h' : isText e = false := by simpa using ht
+          have hm : mergeNodeK buf (.leaf e) = (flushLeaf buf ++ [.leaf e], none) := by
+            cases e <;> simp_all [mergeNodeK, isText]
+          rw [hm]
+          exact flush_then_nontext buf (.leaf e) (by simpa [isTextLeaf] using h') rfl
+    | .elem t a ks, buf => by
+        simp only [mergeNodeK]
+        obtain ⟨h1, h2⟩ := mergeK_normal ks none
+        refine flush_then_nontext buf _ rfl ?_
+        simp only [noAdjLeavesNode]
+        exact noAdjLeavesList_append _ _ h1 (noAdj_flushLeaf _) h2
+  theorem mergeK_normal : ∀ (ns : List Node) (buf : Option Str),
+      noAdjLeavesList (mergeK buf ns).1 = true ∧ endsNonText (mergeK buf ns).1 = true
+    | [], buf => by simp [mergeK, noAdjLeavesList, endsNonText]
+    | n :: ns, buf => by
+        simp only [mergeK]
+        obtain ⟨a1, a2⟩ := mergeNodeK_normal n buf
+        obtain ⟨b1, b2⟩ := mergeK_normal ns (mergeNodeK buf n).2
+        exact ⟨noAdjLeavesList_append _ _ a1 b1 a2, endsNonText_append _ _ a2 b2⟩
+end
+
+/-- in the merged forest every maximal run of character data is a single text leaf -/
+theorem mergeForest_normal (ns : List Node) : noAdjLeavesList (mergeForest ns) = true := by
+  obtain ⟨h1, h2⟩ := mergeK_normal ns none
+  unfold mergeForest
+  exact noAdjLeavesList_append _ _ h1 (noAdj_flushLeaf _) h2
+
 /-! ### a well-nested stream is the flattening of a forest (the tree builder) -/
 
 /-- an open element of the tree builder: tag, attributes, and the finished siblings to its left -/
